@@ -19,6 +19,7 @@ type Profile struct {
 	Regions    bool
 	RegionKind string // restrict regions to one kind
 	Effects    bool   // prints through vdefer / vacquire (C18)
+	NoMaps     bool   // no map-typed data (the generated map inspectors allocate by themselves)
 	KeepFmt    bool   // also generate keepFmt=true cases with newlines in text
 	Comments   bool
 	BreakN     bool
@@ -79,6 +80,9 @@ func (g *Gen) genData() {
 		u.Flags = [][2]string{{"export", fmt.Sprint(ints[r.Intn(6)])}}
 	default:
 		u.Flags = [][2]string{{"export", "17"}, {"ro", "4"}, {"rw", "7"}}
+	}
+	if g.p.NoMaps {
+		u.Flags = nil
 	}
 	// statics
 	kinds := []string{"int", "int64", "int8", "uint", "uint32", "float", "bool", "string", "bytes", "nil", "setbytes", "setstring", "counter"}
@@ -878,7 +882,7 @@ func (g *Gen) genRLoop(depth int) *Ast {
 	u := &g.data.User
 	kind := "hist"
 	switch {
-	case u.Present && len(u.Flags) <= 1 && r.Chance(25):
+	case u.Present && len(u.Flags) <= 1 && r.Chance(25) && !g.p.NoMaps:
 		a.Src = "user.Flags"
 		kind = "int"
 		g.tag("rloop:map")
